@@ -180,50 +180,135 @@ fn apply_vop(st: &mut ShardReplicaState, key: &str, op: &str) {
     }
 }
 
-/// Base values: result of every history of <= `depth` operations on one key at replica 1 or 2;
-/// merged values: merge(x, y) for all base x, y (one closure step). Deterministic order.
-fn value_set(depth: usize) -> (Vec<Val>, usize) {
-    let mut seen: BTreeSet<String> = BTreeSet::new();
-    let mut vals: Vec<Val> = Vec::new();
-    for r in [1u64, 2] {
-        let mut hist: Vec<Vec<&str>> = vec![vec![]];
-        for _ in 0..depth {
-            let mut next = Vec::new();
-            for h in &hist {
-                for op in VOPS {
-                    let mut g = h.clone();
-                    g.push(op);
-                    next.push(g);
-                }
+/// All histories of <= `maxlen` write operations on one key (including the empty one).
+fn op_histories(maxlen: usize) -> Vec<Vec<&'static str>> {
+    let mut all: Vec<Vec<&'static str>> = vec![vec![]];
+    let mut frontier: Vec<Vec<&'static str>> = vec![vec![]];
+    for _ in 0..maxlen {
+        let mut next = Vec::new();
+        for h in &frontier {
+            for op in VOPS {
+                let mut g = h.clone();
+                g.push(op);
+                next.push(g);
             }
-            // evaluate `next`
-            for h in &next {
-                let mut st = ShardReplicaState::new(ReplicaId::new(r), ConsistencyLevel::Eventual);
-                for op in h {
-                    apply_vop(&mut st, "k", op);
-                }
-                if let Some(v) = st.replicated_keys.get("k") {
-                    let c = canon_value(v);
-                    if seen.insert(c.clone()) {
-                        vals.push(Val { recipe: format!("r{}:{}", r, h.join(",")), v: v.clone(), canon: c });
-                    }
-                }
+        }
+        all.extend(next.iter().cloned());
+        frontier = next;
+    }
+    all
+}
+
+/// The deltas a universe offers: the value of the key after every prefix of replica 1's history and
+/// of replica 2's history (name "1.2" = replica 1 after its first two operations).
+fn universe_deltas(h1: &[&str], h2: &[&str]) -> Vec<(String, ReplicatedValue)> {
+    let mut out = Vec::new();
+    for (r, h) in [(1u64, h1), (2u64, h2)] {
+        let mut st = ShardReplicaState::new(ReplicaId::new(r), ConsistencyLevel::Eventual);
+        for (i, op) in h.iter().enumerate() {
+            apply_vop(&mut st, "k", op);
+            if let Some(v) = st.replicated_keys.get("k") {
+                out.push((format!("{}.{}", r, i + 1), v.clone()));
             }
-            hist = next;
         }
     }
-    let nbase = vals.len();
-    let base: Vec<Val> = vals.clone();
-    for x in &base {
-        for y in &base {
-            let m = x.v.merge(&y.v);
-            let c = canon_value(&m);
+    out
+}
+
+/// Ordered sequences of distinct indices 0..n, length >= 1.
+fn sequences(n: usize) -> Vec<Vec<usize>> {
+    let mut out: Vec<Vec<usize>> = Vec::new();
+    let mut frontier: Vec<Vec<usize>> = vec![vec![]];
+    for _ in 0..n {
+        let mut next = Vec::new();
+        for s in &frontier {
+            for i in 0..n {
+                if !s.contains(&i) {
+                    let mut t = s.clone();
+                    t.push(i);
+                    next.push(t);
+                }
+            }
+        }
+        out.extend(next.iter().cloned());
+        frontier = next;
+    }
+    out
+}
+
+struct ValueSpace {
+    vals: Vec<Val>,
+    /// pairs (i < j) of values that can be held by two nodes of ONE execution
+    joint: BTreeSet<(usize, usize)>,
+    /// values that are plain deltas (state of a writer after a prefix of its history)
+    base: Vec<usize>,
+    universes: usize,
+    merges: u64,
+}
+
+/// Reachable values and *jointly* reachable pairs. A universe fixes one write history (<= maxlen ops
+/// on the key) per replica 1 and 2; every prefix state is a delta that gossip may deliver; a node can
+/// hold the real merge (local.merge(remote), in arrival order) of any non-empty sequence of distinct
+/// deltas. Two values are jointly reachable iff some universe offers both.
+fn value_space(maxlen: usize) -> ValueSpace {
+    let hs = op_histories(maxlen);
+    let mut unis: Vec<(usize, usize)> = Vec::new();
+    for a in 0..hs.len() {
+        for b in 0..hs.len() {
+            unis.push((a, b));
+        }
+    }
+    // per universe: list of (canon, recipe, value, is_base)
+    let per: Vec<Vec<(String, String, ReplicatedValue, bool)>> = par::par_map(&unis, |_, &(a, b)| {
+        let deltas = universe_deltas(&hs[a], &hs[b]);
+        let mut seen: BTreeSet<String> = BTreeSet::new();
+        let mut out = Vec::new();
+        for seq in sequences(deltas.len()) {
+            let mut v = deltas[seq[0]].1.clone();
+            for &i in &seq[1..] {
+                v = v.merge(&deltas[i].1);
+            }
+            let c = canon_value(&v);
             if seen.insert(c.clone()) {
-                vals.push(Val { recipe: format!("merge({} , {})", x.recipe, y.recipe), v: m, canon: c });
+                let recipe = format!(
+                    "r1={};r2={}|{}",
+                    hs[a].join(","),
+                    hs[b].join(","),
+                    seq.iter().map(|&i| deltas[i].0.clone()).collect::<Vec<_>>().join(">")
+                );
+                out.push((c, recipe, v, seq.len() == 1));
+            }
+        }
+        out
+    });
+    let mut index: BTreeMap<String, usize> = BTreeMap::new();
+    let mut vals: Vec<Val> = Vec::new();
+    let mut joint: BTreeSet<(usize, usize)> = BTreeSet::new();
+    let mut base: BTreeSet<usize> = BTreeSet::new();
+    let mut merges = 0u64;
+    for (u, list) in per.iter().enumerate() {
+        let n = universe_deltas(&hs[unis[u].0], &hs[unis[u].1]).len();
+        merges += sequences(n).len() as u64;
+        let mut ids = Vec::new();
+        for (c, recipe, v, is_base) in list {
+            let id = *index.entry(c.clone()).or_insert_with(|| {
+                vals.push(Val { recipe: recipe.clone(), v: v.clone(), canon: c.clone() });
+                vals.len() - 1
+            });
+            if *is_base {
+                base.insert(id);
+            }
+            ids.push(id);
+        }
+        for &i in &ids {
+            for &j in &ids {
+                if i < j {
+                    joint.insert((i, j));
+                }
             }
         }
     }
-    (vals, nbase)
+    ValueSpace { vals, joint, base: base.into_iter().collect(), universes: unis.len(), merges }
 }
 
 // ------------------------------------------------------------------------------------------------
@@ -435,6 +520,7 @@ struct Cov {
     multi_bucket_contents: u64,
     not_idempotent_skipped: u64,
     pairs_internal_only: u64,
+    pairs_not_jointly_reachable: u64,
 }
 impl Cov {
     fn add(&mut self, o: &Cov) {
@@ -449,6 +535,7 @@ impl Cov {
         self.multi_bucket_contents += o.multi_bucket_contents;
         self.not_idempotent_skipped += o.not_idempotent_skipped;
         self.pairs_internal_only += o.pairs_internal_only;
+        self.pairs_not_jointly_reachable += o.pairs_not_jointly_reachable;
     }
 }
 
@@ -792,9 +879,19 @@ struct ItemResult {
 
 struct Ctx {
     core: Vec<ReplicatedValue>,
-    base: Vec<ReplicatedValue>,
-    list: Vec<ReplicatedValue>, // values used at the varying position of Unequal sweeps
+    vals: Vec<ReplicatedValue>,
+    /// value ids ranging at the varying position of the Unequal sweep
+    list: Vec<usize>,
+    /// value ids ranging in the MergeOrder sweep
+    mlist: Vec<usize>,
+    joint: BTreeSet<(usize, usize)>,
     recipes: BTreeMap<String, String>,
+}
+
+impl Ctx {
+    fn jointly_reachable(&self, i: usize, j: usize) -> bool {
+        i == j || self.joint.contains(&(i.min(j), i.max(j)))
+    }
 }
 
 fn keyset_label(depth: usize, keys: &[String]) -> String {
@@ -841,7 +938,8 @@ fn run_item(it: &Item, ctx: &Ctx) -> ItemResult {
         Sweep::Unequal { bg, pos } => {
             // contents: value list at `pos` (+ absent), background elsewhere
             let mut contents: Vec<Content> = Vec::new();
-            for v in ctx.list.iter().map(Some).chain(std::iter::once(None)) {
+            let ids: Vec<Option<usize>> = ctx.list.iter().map(|&i| Some(i)).chain(std::iter::once(None)).collect();
+            for v in ids.iter().map(|o| o.map(|i| &ctx.vals[i])) {
                 let mut c: Content = Vec::new();
                 for (i, k) in it.keys.iter().enumerate() {
                     if i == *pos {
@@ -867,6 +965,13 @@ fn run_item(it: &Item, ctx: &Ctx) -> ItemResult {
             }
             for i in 0..contents.len() {
                 for j in (i + 1)..contents.len() {
+                    // only pairs that two nodes of one execution can hold (a node may always lack the key)
+                    if let (Some(a), Some(b)) = (ids[i], ids[j]) {
+                        if !ctx.jointly_reachable(a, b) {
+                            cov.pairs_not_jointly_reachable += 1;
+                            continue;
+                        }
+                    }
                     let d = match judge(&contents[i], &contents[j]) {
                         Judge::Unequal(d) => d,
                         Judge::Equal => continue,
@@ -888,8 +993,13 @@ fn run_item(it: &Item, ctx: &Ctx) -> ItemResult {
             }
         }
         Sweep::MergeOrder { bg, pos, vi } => {
-            for v in &ctx.base[*vi..*vi + 1] {
-                for w in &ctx.base {
+            for &vid in &ctx.mlist[*vi..*vi + 1] {
+                for &wid in &ctx.mlist {
+                    if !ctx.jointly_reachable(vid, wid) {
+                        cov.pairs_not_jointly_reachable += 1;
+                        continue;
+                    }
+                    let (v, w) = (&ctx.vals[vid], &ctx.vals[wid]);
                     let mut sa: Vec<ReplicationDelta> = Vec::new();
                     let mut sb: Vec<ReplicationDelta> = Vec::new();
                     for (i, k) in it.keys.iter().enumerate() {
@@ -943,8 +1053,8 @@ fn run_item(it: &Item, ctx: &Ctx) -> ItemResult {
                     // recipes of the merged values (for the replay file)
                     let mut recipes = BTreeMap::new();
                     if let (Some(rv), Some(rw)) = (ctx.recipes.get(&canon_value(v)), ctx.recipes.get(&canon_value(w))) {
-                        recipes.insert(canon_value(&v.merge(w)), format!("merge({rv} , {rw})"));
-                        recipes.insert(canon_value(&w.merge(v)), format!("merge({rw} , {rv})"));
+                        recipes.insert(canon_value(&v.merge(w)), format!("M({rv} & {rw})"));
+                        recipes.insert(canon_value(&w.merge(v)), format!("M({rw} & {rv})"));
                     }
                     for (k, val) in cx.iter().chain(cy.iter()) {
                         let _ = k;
@@ -1435,38 +1545,33 @@ fn distinct_histories(cfg: &SyncCfg, node: usize, maxlen: usize) -> (Vec<Vec<WOp
 // replay support
 // ------------------------------------------------------------------------------------------------
 
+/// Rebuild a value from its recipe "r1=<ops>;r2=<ops>|<delta>><delta>..." (see `value_space`).
 fn value_from_recipe(r: &str) -> Option<ReplicatedValue> {
-    let r = r.trim();
-    if let Some(inner) = r.strip_prefix("merge(").and_then(|x| x.strip_suffix(')')) {
-        // split at the top-level " , " (recipes nest)
-        let b = inner.as_bytes();
-        let mut level = 0i32;
-        let mut cut = None;
-        for i in 0..b.len() {
-            match b[i] {
-                b'(' => level += 1,
-                b')' => level -= 1,
-                b' ' if level == 0 && inner[i..].starts_with(" , ") => {
-                    cut = Some(i);
-                    break;
-                }
-                _ => {}
-            }
-        }
-        let cut = cut?;
-        let (x, y) = (&inner[..cut], &inner[cut + 3..]);
+    if let Some(inner) = r.trim().strip_prefix("M(").and_then(|x| x.strip_suffix(')')) {
+        let (x, y) = inner.split_once(" & ")?;
         return Some(value_from_recipe(x)?.merge(&value_from_recipe(y)?));
     }
-    let (rep, ops) = r.split_once(':')?;
-    let id: u64 = rep.strip_prefix('r')?.parse().ok()?;
-    let mut st = ShardReplicaState::new(ReplicaId::new(id), ConsistencyLevel::Eventual);
-    for op in ops.split(',') {
-        if !VOPS.contains(&op) {
-            return None;
+    let (uni, seq) = r.trim().split_once('|')?;
+    let (h1, h2) = uni.split_once(';')?;
+    let parse = |h: &str, p: &str| -> Option<Vec<&'static str>> {
+        let body = h.strip_prefix(p)?;
+        let mut out = Vec::new();
+        for op in body.split(',').filter(|o| !o.is_empty()) {
+            out.push(*VOPS.iter().find(|v| **v == op)?);
         }
-        apply_vop(&mut st, "k", op);
+        Some(out)
+    };
+    let (h1, h2) = (parse(h1, "r1=")?, parse(h2, "r2=")?);
+    let deltas = universe_deltas(&h1, &h2);
+    let mut v: Option<ReplicatedValue> = None;
+    for name in seq.split('>') {
+        let d = &deltas.iter().find(|(n, _)| n == name)?.1;
+        v = Some(match v {
+            None => d.clone(),
+            Some(x) => x.merge(d),
+        });
     }
-    st.replicated_keys.get("k").cloned()
+    v
 }
 
 fn content_from_json(v: &Value) -> Content {
@@ -1584,12 +1689,14 @@ fn main() {
     let thorough = args.tier == Tier::Thorough;
 
     // ---- values
-    let (vals, nbase) = value_set(2);
+    let hist_len = args.flag("--hist").and_then(|s| s.parse().ok()).unwrap_or(if thorough { 3 } else { 2 });
+    let space = value_space(hist_len);
+    let vals = &space.vals;
     let recipes: BTreeMap<String, String> = vals.iter().map(|v| (v.canon.clone(), v.recipe.clone())).collect();
-    let mut core_recipes = vec!["r1:W(a)", "r2:W(b)", "r1:W(a),D", "r1:WX(a)", "r2:H(f=x)", "r1:H(f=x),H(g=y)"];
+    let mut core_recipes = vec!["r1=W(a);r2=|1.1", "r1=;r2=W(b)|2.1", "r1=W(a),D;r2=|1.2", "r1=WX(a);r2=|1.1", "r1=;r2=H(f=x)|2.1", "r1=H(f=x),H(g=y);r2=|1.2"];
     if thorough {
-        core_recipes.push("merge(r1:W(a) , r2:W(b))");
-        core_recipes.push("r2:H(f=x),HD(f)");
+        core_recipes.push("r1=W(a);r2=W(b)|1.1>2.1");
+        core_recipes.push("r1=;r2=H(f=x),HD(f)|2.2");
     }
     let mut core: Vec<ReplicatedValue> = Vec::new();
     for r in &core_recipes {
@@ -1598,8 +1705,11 @@ fn main() {
             _ => rep.machinery_failure(&format!("core value {r} not in the generated value set")),
         }
     }
-    let base: Vec<ReplicatedValue> = vals[..nbase].iter().map(|v| v.v.clone()).collect();
     let all: Vec<ReplicatedValue> = vals.iter().map(|v| v.v.clone()).collect();
+    let all_ids: Vec<usize> = (0..vals.len()).collect();
+    if std::env::var("VERIF_C18_DEBUG").is_ok() {
+        eprintln!("values {} base {} joint pairs {} universes {} merges {}", vals.len(), space.base.len(), space.joint.len(), space.universes, space.merges);
+    }
 
     // ---- key sets
     let mut keysets: Vec<(usize, Vec<String>)> = Vec::new();
@@ -1624,6 +1734,10 @@ fn main() {
         }
     }
 
+    // value lists of the sweeps
+    let mlist: Vec<usize> = if thorough { all_ids.clone() } else { space.base.clone() };
+    let mlist_len = mlist.len();
+
     // ---- (a) items
     let mut items: Vec<Item> = Vec::new();
     for (depth, keys) in &keysets {
@@ -1637,7 +1751,7 @@ fn main() {
             for pos in 0..n {
                 items.push(Item { depth: *depth, keys: keys.clone(), sweep: Sweep::Unequal { bg: bg.clone(), pos } });
                 if g == 0 {
-                    for vi in 0..(if thorough { all.len() } else { base.len() }) {
+                    for vi in 0..mlist_len {
                         items.push(Item { depth: *depth, keys: keys.clone(), sweep: Sweep::MergeOrder { bg: bg.clone(), pos, vi } });
                     }
                 }
@@ -1648,8 +1762,7 @@ fn main() {
     shuffle(&mut items, args.seed);
     // quick: the value list of the unequal sweep is the base set for multi-key sets and the full
     // closure for single-key sets; thorough: the full closure everywhere
-    let ctx_full = Ctx { core: core.clone(), base: if thorough { all.clone() } else { base.clone() }, list: all.clone(), recipes: recipes.clone() };
-    let ctx_base = Ctx { core: core.clone(), base: base.clone(), list: base.clone(), recipes: recipes.clone() };
+    let ctx_full = Ctx { core: core.clone(), vals: all.clone(), list: all_ids.clone(), mlist: mlist.clone(), joint: space.joint.clone(), recipes: recipes.clone() };
     let part = args.flag("--part").map(|s| s.to_string());
     if part.as_deref() == Some("sync") {
         items.clear();
@@ -1664,7 +1777,7 @@ fn main() {
     }
     let t0 = rep.elapsed_s();
     let results = par::par_map(&items, |_, it| {
-        let ctx = if thorough || it.keys.len() == 1 { &ctx_full } else { &ctx_base };
+        let ctx = &ctx_full;
         run_item(it, ctx)
     });
     let t_digest = rep.elapsed_s() - t0;
@@ -1831,7 +1944,8 @@ fn main() {
         "rule": "digest part: (i) every content core^n (6 core values, n<=4 keys) on each key set, built by 8 construction kinds x every insertion order, repeated until every per-bucket HashMap iteration order was observed, each instance compared with the first (non-trivial: >=2 keys share a bucket, i.e. more than one iteration order exists); (ii) for each key set and position, all pairs of distinct values (and key absent) at that position, every pair of observed iteration orders (non-trivial: the two states differ); (iii) merge(A,B) vs merge(B,A) by apply_remote_delta for all base x base value pairs, classified equal/unequal by canonical content (each pair non-trivial). sync part: every pair of deduplicated write histories x per-round limit x merkle config, repeated on fresh nodes until every combination of initial and of final iteration orders was seen (non-trivial: the initial digests differ so that a sync is attempted)",
         "exhaustive": exhaustive,
         "samples": samples,
-        "values": {"base_values_from_histories_le2_on_2_replicas": nbase, "with_one_merge_closure_step": vals.len(), "core": core_recipes,
+        "values": {"write_history_length_per_replica": hist_len, "universes": space.universes, "merge_sequences_evaluated": space.merges, "distinct_values": vals.len(),
+                   "plain_deltas": space.base.len(), "jointly_reachable_pairs": space.joint.len(), "core": core_recipes,
                    "value_samples": vals.iter().step_by((vals.len() / 12).max(1)).map(|v| format!("{} = {}", v.recipe, v.canon)).collect::<Vec<_>>()},
         "key_selection": key_notes,
         "digest": {
@@ -1840,6 +1954,7 @@ fn main() {
             "merge_order_pairs_equal_content": cov.merge_pairs_equal, "merge_order_pairs_unequal_content": cov.merge_pairs_unequal,
             "delta_built_instances_skipped_not_intended_content": cov.not_idempotent_skipped,
             "pairs_differing_only_in_internal_stamps_not_judged": cov.pairs_internal_only,
+            "pairs_skipped_not_jointly_reachable_in_one_execution": cov.pairs_not_jointly_reachable,
             "iteration_orders": orders_json, "pools_missing_an_order": cov.pools_incomplete,
             "max_instances_built_for_one_content": cov.max_attempts_used, "attempt_bound": MAX_ATTEMPTS, "wall_s": t_digest,
         },
